@@ -151,3 +151,9 @@ func TestRandom(t *testing.T) {
 	max := rec.Env().Pick(3000, 40000)
 	rapid.Check(t, func(t *rapid.T) { eval(t, splitk.DrawCase(t, max), false) })
 }
+
+// FuzzSplit: the same property driven by Go's coverage-guided fuzzer (thorough tier): the fuzzer's bytes
+// are the random source of the case generator, so coverage of the splitter steers which texts are built.
+func FuzzSplit(f *testing.F) {
+	f.Fuzz(rapid.MakeFuzz(func(t *rapid.T) { eval(t, splitk.DrawCase(t, 4000), false) }))
+}
